@@ -5,7 +5,17 @@ use crate::sym;
 /// stage up to `n` operations on top of a committed (and possibly merged) state
 fn stage_ops(r: &Rep, n: usize, k: usize) {
     for _ in 0..n {
-        match sym::choose(3) {
+        match sym::choose(4) {
+            3 => {
+                // a staged resolution in favour of any live leaf (only possible while `a` is in conflict)
+                if r.m.in_conflict().contains("a") {
+                    let w = r.m.get_winner("a").unwrap();
+                    let mut leaves: Vec<String> = r.m.get_conflicting("a").unwrap().into_iter().collect();
+                    leaves.push(w);
+                    let chosen = leaves[sym::choose(leaves.len())].clone();
+                    r.m.resolve_as("a", &chosen).expect("resolve_as");
+                }
+            }
             0 => {
                 r.m.update(any_doc(k, 0)).expect("update");
             }
